@@ -25,7 +25,7 @@ func init() {
 		Explanation: "Decides structural necessary conditions of exact set algebra and closure: DTX(setalg): container.Merge/Intersect are evaluated abstractly for all 16 (Inverse, empty) operand states and the symbolic result (helper, operand order, polarity) equals A∪B / A∩B on every pair of subsets of a 3-element universe; Complement flips only the polarity. MINMAX(update): the low-link updates of graph.Tarjan (which orders the closure) compare against the cell they update. " +
 			"ALIAS: at every call that fills a caller-supplied scratch buffer (p[:0] idiom, found by summary) no other operand may share storage with the buffer (field-based may-alias with reaching stores). GUARD(complcycle): an error is recorded exactly under op==complement ∧ onStack(operand), and Compute returns it. " +
 			"Not decided: the merge loops of combine/intersect/subtract, the least-fixpoint property, Tarjan itself.",
-		Rules: []string{"DTX(setalg)", "ALIAS", "GUARD(complcycle)", "MINMAX(update)"},
+		Rules: []string{"DTX(setalg)", "ALIAS", "GUARD(complcycle)", "MINMAX(update)", "INPLACE(write-behind-read)"},
 		Run: func(c *Ctx) {
 			ruleMINMAX(c, "util/graph", "util/set")
 			c.MinCount("MINMAX(update)", "util/graph.", 2)
@@ -36,6 +36,7 @@ func init() {
 			ruleUNIONCLONE(c)
 			ruleCOMPLCYCLE(c)
 			ruleKEYCOPY(c)
+			ruleINPLACE(c, "util/container", "util/sparse", "util/set", "util/diff", "util/graph")
 		},
 	})
 	register(&Property{
@@ -162,11 +163,12 @@ func init() {
 	register(&Property{
 		ID: "C10",
 		Explanation: "Decides structural necessary conditions of 'patterns denote their documented sets': INTERVAL(digit): hexval/octval, evaluated abstractly on a partition of the rune line, return exactly the digit value on digit ranges and -1 elsewhere. INTERVAL(accumulator): every digit accumulation loop in parseEscape has a constant trip count that fits 31 bits or a range check inside the loop (no int32 wrap-around). " +
-			"GUARD(fold): Unicode fold tables are appended only under opts.Fold. GUARD(invrange): a two-bound class range is inserted only after hi < lo was rejected. DTX(negation): \\p-negation = (letter is P) XOR (leading ^). LOOPSHAPE(fold-orbit): the SimpleFold orbit loop leaves only through its header. DTX(rune-fold): in bytes mode a rune above 0x7f is never folded (it must stay a single rune to become a byte literal). " +
+			"GUARD(fold): Unicode fold tables are appended only under opts.Fold. GUARD(invrange): a two-bound class range is inserted only after hi < lo was rejected. DTX(negation): \\p-negation = (letter is P) XOR (leading ^). LOOPSHAPE(fold-orbit): the SimpleFold orbit loop leaves only through its header. DTX(rune-fold): in bytes mode a rune above 0x7f is never folded (it must stay a single rune to become a byte literal). MUSTPASS(class-order): a bracket class is built as ranges, minus subtractions, then folded, then complemented. INPLACE(write-behind-read): the in-place range filters (charset.subtract/invert and the other out := r[:0] loops of lex and compiler) never append past the read cursor while sharing the input's array (finite abstraction of len(out)-i, comparisons between them decided exactly). LOCKSTEP(offset-column): a regexp error narrowed inside the pattern moves Offset and Column by the same amount. " +
 			"Not decided: the denotation of well-formed patterns in general (set algebra on ranges, quantifiers, parentheses).",
-		Rules: []string{"INTERVAL(digit)", "INTERVAL(accumulator)", "GUARD(fold)", "GUARD(invrange)", "DTX(negation)", "LOOPSHAPE(fold-orbit)", "DTX(rune-fold)", "MUSTPASS(class-order)", "LOCKSTEP(offset-column)"},
+		Rules: []string{"INTERVAL(digit)", "INTERVAL(accumulator)", "GUARD(fold)", "GUARD(invrange)", "DTX(negation)", "LOOPSHAPE(fold-orbit)", "DTX(rune-fold)", "MUSTPASS(class-order)", "LOCKSTEP(offset-column)", "INPLACE(write-behind-read)"},
 		Run: func(c *Ctx) {
 			ruleCLASSORDER(c)
+			ruleINPLACE(c, "lex", "compiler")
 			ruleOFFCOL(c, "compiler", "lex", "status")
 			ruleDIGITS(c)
 			ruleACCUM(c)
